@@ -103,7 +103,7 @@ ROUND5 = {
  'C08': ' Round 5: subscribe calls over WebSocket - the accepting response carries a scripted string subscription id sized around the limit, the rejecting response the handler\'s error object with data sized around the limit (found defect 26); a subscription\'s notifications are not replies and are not measured.',
  'C12': ' Round 5: a reply that answers one id twice must fail the call or report that entry as an error - the client must not pick one of the answers (found defect 25; judged when one reply message alone ever addressed the id).',
  'C04': ' Round 5: every fourth run carries preemption points (hook H8): accept() / reject() may be descheduled - for a drawn number of scheduler turns or 1-5 ms of virtual time - right after their response has been queued, which is the place where a thread of a multi-threaded runtime can lose the CPU between two statements that have no await between them; in those runs a client may unsubscribe the moment it holds the accepting response.',
- 'C06': ' Round 5: every fourth run carries preemption points (hook H8) inside accept() / reject() (descheduled after the response has been queued, for a drawn number of scheduler turns or 1-5 ms of virtual time) together with a client that unsubscribes the moment it holds the accepting response: such an unsubscribe must be answered true (found defect 24); an unsubscribe for a guessed id that is decided between the call and the return of accept() may be answered either way.',
+ 'C06': ' Round 5: every fourth run carries preemption points (hook H8) inside accept() / reject() (descheduled after the response has been queued, for a drawn number of scheduler turns or 1-5 ms of virtual time) together with a client that unsubscribes the moment it holds the accepting response: such an unsubscribe must be answered true (found defect 24); an unsubscribe for a guessed id that is decided between the call and the return of accept() may be answered either way. Likewise a peer that subscribes again the moment it holds a rejection must find the slot free (found defect 27); the permit model has two instants for a subscription being rejected: its slot may be free from the call of reject() on and must be free once reject() has returned or the peer holds the rejection.',
 }
 
 NA = {
